@@ -50,6 +50,13 @@ def one_case(rng, idx):
         if r['verdict'] != 'ok':
             return {'fails': [dict(case, what='run ended with %s %s' % (r['verdict'], r['detail']), cmd=r['cmd'], history=ops[:50])], 'case': case}
         fails = []
+        if mode == 'multi':
+            seen = [int(l.split()[1]) for l in r['out'] if l.startswith('AFTERDTOR ')]
+            want = sum(len(v) + (2 if append and sub in previous else 0) for sub, v in expect.items())
+            if not seen:
+                fails.append(dict(case, what='io harness printed no AFTERDTOR line'))
+            elif seen[0] != want:
+                fails.append(dict(case, what='rank 0 read the files as soon as the destructor of multi_output had returned there: %d of %d lines are in the files (other ranks had not written theirs yet)' % (seen[0], want), cmd=r['cmd']))
         root = os.path.join(d, 'out', 'pre')
         found = {}
         for dp, dn, fn in os.walk(root):
